@@ -131,6 +131,9 @@ def run(model: Model, rep: Report) -> None:
         if isinstance(n, ast.If) and isinstance(n.test, ast.Compare) and unparse(n.test.left) == "pred":
             tests.append("".join(unparse(n.test).split()))
     r7.check(sorted(tests) == ["pred==1", "pred==2", "pred>=10"], site(dec), dec.qualname, "branches on the predictor code: == 1, == 2, >= 10", why=f"{sorted(tests)}: with /Predictor 10 every row still starts with its PNG tag byte, so treating 10 as `no predictor` leaves the tags in the samples and shears the image")
+    from .c03 import predictor_reached_instance
+
+    predictor_reached_instance(model, r7)
     # ---------------------------------------------------------------- R8: inline data scanner details
     r8 = rep.rule("C18-R8", "FSM", "inline data: exactly one end-of-line before the terminator is dropped (pattern anchored at the very end); after a failed partial match of the terminator the current byte is re-examined as a possible first byte", 2)
     gi2 = model.func(PI + "PDFContentParser.get_inline_data")
